@@ -49,6 +49,7 @@ def expect : Shape → List Call → List (List Call)
   | .deco c, evs => expect c evs
   | .tagger _ _ c, evs => expect c evs
   | .fsink _ _ _, evs => [evs]
+  | .sff, _ => []
   | .tfr c, evs => expect c evs
   | .e2s c, evs => expect c evs
   | .multi cs, evs => expectL cs evs
@@ -139,6 +140,7 @@ mutual
 def isTbtLeaf : Shape → List Bool
   | .tbt => [true]
   | .sink _ | .fsink _ _ _ | .tt _ | .text _ => [false]
+  | .sff => []
   | .etod c | .deco c | .tagger _ _ c | .tfr c | .e2s c => isTbtLeaf c
   | .multi cs => isTbtLeafL cs
 def isTbtLeafL : List Shape → List Bool
